@@ -18,11 +18,11 @@ From Shoot Require Import Proofs.GoValProofs Proofs.CtorFlattenProofs Proofs.Cto
 Import ListNotations.
 Local Open Scope string_scope.
 
-(* Key set.  JSONList = the unshadowed leaf entries (own and promoted fields Go selects by their bare name), in
-   declaration order, that are exported or have a getter or a setter -- own (the C03 table, filtered by the
-   type-level directive) or found by name among the methods of the embedded accessor interfaces; the getter / setter /
-   exported lists are the corresponding sub-lists; the JSON code is emitted iff some listed field needs it. *)
-Theorem C11_key_set : forall fl sd d fields,
+(* Lemma about the literal loop (NOT yet the property's sentence): JSONList is the filter of the flattened entries by
+   makeJson's own tests -- an unshadowed leaf whose tag is not "-" (j_live) that is exported, or has an own accessor
+   mark admitted by the type-level directive, or whose Pascal-cased name is found BY NAME among the methods collected
+   from the embedded accessor interfaces.  The declarative reading is split over the next theorems. *)
+Theorem C11_key_set_loop : forall fl sd d fields,
   fl_json fl = true ->
   let jd := make_json fl sd d fields in
   let tc := fl_tagcase fl in let G := fst (type_switch fl sd) in let S := snd (type_switch fl sd) in
@@ -33,25 +33,82 @@ Theorem C11_key_set : forall fl sd d fields,
   jd_exported jd = map f_name (filter j_exported fields) /\
   jd_json jd = existsb (j_need tc G S ms) fields.
 Proof. exact json_lists. Qed.
-Print Assumptions C11_key_set.
+Print Assumptions C11_key_set_loop.
 
 Theorem C11_no_json_flag : forall fl sd d fields, fl_json fl = false -> make_json fl sd d fields = empty_json.
 Proof. exact no_json_flag_no_json. Qed.
 Print Assumptions C11_no_json_flag.
 
-(* Key names.  Every unshadowed leaf entry IS the field Go's selector rule resolves its name to, and its member
-   name in JSONTagMap is the explicit json tag of its declaration (fields of the struct itself) or else the
-   -tagcase transform (pascal / camel / lower / upper) of the field name. *)
+(* The entries makeJson filters are, in order, exactly the fields Go's selector rule selects on T by their bare name
+   (own and promoted, shadowed ones excluded). *)
+Theorem C11_entries_are_selectable_leaves : forall pkg fl fuel sd fs hn,
+  flatten pkg fl fuel sd = COk (fs, hn) ->
+  c02_guard pkg fuel sd = true -> no_excluded_fields sd = true ->
+  map f_path (filter oentry fs) = selectable_leaves pkg fuel sd.
+Proof. exact live_entries_are_selectable_leaves. Qed.
+Print Assumptions C11_entries_are_selectable_leaves.
+
+(* "one key per exported field": the exported members are exactly the exported fields Go selects on T whose
+   declaration is not tagged json:"-" (fully declarative: struct graph and tags only). *)
+Theorem C11_exported_members : forall pkg v fl fuel sd fields d nd jd,
+  json_of pkg v fl fuel sd = COk (fields, d, nd, jd) ->
+  fl_json fl = true -> c02_guard pkg fuel sd = true -> no_excluded_fields sd = true ->
+  no_promoted_json_tags pkg fuel sd = true ->
+  jd_exported jd =
+  map (fun p => last p "")
+      (filter (fun p => is_exported (last p "") && negb (String.eqb (spec_tag pkg fuel sd p) "-"))
+              (selectable_leaves pkg fuel sd)).
+Proof. exact exported_members. Qed.
+Print Assumptions C11_exported_members.
+
+(* Key names.  Every entry makeJson looks at IS the field Go's selector rule resolves its name to, and its tag text in
+   JSONTagMap is the explicit json tag of the field's DECLARATION (looked up in the struct that declares it) or else the
+   -tagcase transform (pascal / camel / lower / upper) of the field name.  Needs no_promoted_json_tags: the tag of a
+   promoted field is lost (finding K_json_promoted_tag_lost, refuted below). *)
 Theorem C11_key_names : forall pkg v fl fuel sd fields d nd jd,
   json_of pkg v fl fuel sd = COk (fields, d, nd, jd) ->
-  fl_json fl = true -> c02_guard pkg fuel sd = true ->
-  forall e, In e fields -> oentry e = true ->
+  fl_json fl = true -> c02_guard pkg fuel sd = true -> no_promoted_json_tags pkg fuel sd = true ->
+  forall e, In e fields -> j_live e = true ->
     resolve pkg fuel sd (f_name e) = Some (f_path e) /\
-    assoc_s (f_name e) (jd_tags jd) = spec_key_tag fl sd (f_path e).
+    assoc_s (f_name e) (jd_tags jd) = spec_key_tag pkg fl fuel sd (f_path e).
 Proof. exact key_table. Qed.
 Print Assumptions C11_key_names.
 
-(* Round trip, for ALL values x and w and any encoder/decoder pair with the stated law: after
+(* The part of the round trip's hypothesis json_aligned that holds for makeJson's output by construction.  NOT proved
+   for makeJson's output (evaluated on every sample of the correspondence run instead, a failure is a violation): that
+   the accessor found BY NAME for a field is the accessor OF that field (first two conjuncts of json_aligned), and that
+   the listed names / member names are distinct. *)
+Theorem C11_aligned_structure : forall pkg v fl fuel sd fields d nd jd,
+  json_of pkg v fl fuel sd = COk (fields, d, nd, jd) ->
+  fl_json fl = true -> c02_guard pkg fuel sd = true -> no_excluded_fields sd = true ->
+  (forall f, In f (jd_list jd) ->
+     existsb (path_eqb (json_path pkg fuel sd f)) (leaf_paths pkg fuel (self_inst sd) []) = true /\
+     is_some (resolve pkg fuel sd f) = true) /\
+  (forall f, In f (jd_getters jd) -> mem_str f (jd_exported jd) = false) /\
+  (forall f, In f (jd_setters jd) -> mem_str f (jd_exported jd) = false) /\
+  (forall f, In f (jd_getters jd ++ jd_setters jd ++ jd_exported jd)%list -> mem_str f (jd_list jd) = true).
+Proof. exact aligned_structure. Qed.
+Print Assumptions C11_aligned_structure.
+
+(* Progress: MarshalJSON returns (no panic) on every value in which all listed fields can be read, UnmarshalJSON on
+   every value in which all assigned fields can be read -- i.e. no nil embedded pointer on the way (K_json_nil_embed is
+   exactly the complement, refuted below).  So the round trip below is not vacuous on such values. *)
+Theorem C11_marshal_runs : forall pkg v fuel sd jd,
+  json_aligned pkg v fuel sd jd = true -> json_keys_ok jd = true ->
+  forall x, (forall f, In f (jd_list jd) -> exists y, lookup x (json_path pkg fuel sd f) = Ok y) ->
+  exists kv, marshal pkg v fuel sd jd x = Ok kv.
+Proof. exact marshal_runs. Qed.
+Print Assumptions C11_marshal_runs.
+
+Theorem C11_unmarshal_runs : forall pkg v fuel sd jd,
+  c02_guard pkg fuel sd = true -> json_aligned pkg v fuel sd jd = true -> json_keys_ok jd = true ->
+  forall kv w, (forall f, In f (jd_setters jd ++ jd_exported jd)%list -> exists y, lookup w (json_path pkg fuel sd f) = Ok y) ->
+  exists w', unmarshal pkg v fuel sd jd kv w = Ok w'.
+Proof. exact unmarshal_runs. Qed.
+Print Assumptions C11_unmarshal_runs.
+
+(* Round trip, for ALL values x and w of the GoVal model and any encoder/decoder pair with the stated law (members with
+   option omitempty are left out when zero; a field tagged "-" is not part of the JSON code at all): after
    UnmarshalJSON(MarshalJSON(x)) into w, every listed field that is exported or has both accessors holds x's value,
    a field with a setter but no getter holds the zero value (it was emitted as zero), every other listed field of w
    is untouched. *)
@@ -227,3 +284,61 @@ Proof.
   exists fields, d, nd, jd. split; [reflexivity|]. vm_compute in E. inversion E; subst. vm_compute. repeat split; reflexivity.
 Qed.
 Print Assumptions C11_refuted_K_json_nil_embed.
+
+(* K_json_promoted_tag_lost, in the declarative vocabulary: the declaration of Son's promoted field Tag (in Base) says
+   "tg" -- spec_member gives "tg" -- while the generated code uses "tag" *)
+Example C11_example_promoted_tag_spec :
+  spec_member [w_tbase; w_tson] (js_flags TagCamel) 8 w_tson ["Base"; "Tag"] = "tg" /\
+  no_promoted_json_tags [w_tbase; w_tson] 8 w_tson = false.
+Proof. vm_compute. split; reflexivity. Qed.
+
+(* K_json_dash_zeroed (repaired, /repo c28f6db): a field tagged json:"-" is not part of the JSON code: not listed, not
+   assigned by UnmarshalJSON; `omitempty` leaves a zero member out and the round trip still restores zero *)
+Definition w_dash : sdecl :=
+  {| sd_pkg := ""; sd_name := "Conf"; sd_tparams := []; sd_doc := "";
+     sd_fields := [fdt "Secret" (TBasic "string") "-"; fdt "Note" (TBasic "string") "note,omitempty"; fd1 "name" (TBasic "string") ""] |}.
+
+Example C11_example_dash_and_omitempty :
+  c11_guard [w_dash] (js_flags TagCamel) 8 w_dash = true /\
+  match json_of [w_dash] [] (js_flags TagCamel) 8 w_dash, run_getset [w_dash] (js_flags TagCamel) 8 ["Conf"] [] with
+  | COk (_, _, _, jd), COk (_, v) =>
+      jd_list jd = ["Note"; "name"] /\ jd_exported jd = ["Note"] /\
+      json_aligned [w_dash] v 8 w_dash jd = true /\ json_keys_ok jd = true /\
+      let x := VPtr (VStruct [("Secret", VS "sec"); ("Note", VZero); ("name", VS "n")]) in
+      let w := VPtr (VStruct [("Secret", VS "keep"); ("Note", VS "x"); ("name", VS "m")]) in
+      marshal [w_dash] v 8 w_dash jd x = Ok [("name", VS "n")] /\
+      unmarshal [w_dash] v 8 w_dash jd [("name", VS "n")] w =
+      Ok (VPtr (VStruct [("Secret", VS "keep"); ("Note", VZero); ("name", VS "n")]))
+  | _, _ => False
+  end.
+Proof. vm_compute. repeat split; reflexivity. Qed.
+
+(* K_json_accessor_by_name: `// shoot: setter  Base{ //shoot: get  size string; User }` with User{size string}: inside
+   c11_guard; Base.size has no setter of its own, yet it is listed as a setter member because the NAME SetSize is promoted
+   from User -- the accessor found by name belongs to another field: json_aligned fails, Unmarshal assigns Base.User.size *)
+Definition w_user : sdecl :=
+  {| sd_pkg := ""; sd_name := "User"; sd_tparams := []; sd_doc := ""; sd_fields := [fd1 "size" (TBasic "string") ""] |}.
+Definition w_bbase : sdecl :=
+  {| sd_pkg := ""; sd_name := "Base"; sd_tparams := []; sd_doc := "shoot: setter" ++ nl;
+     sd_fields := [fd1 "size" (TBasic "string") ("shoot: get" ++ nl); emb (TNamed "" "User" [])] |}.
+Definition w_bn_view0 : view :=
+  Eval vm_compute in match run_getset [w_user; w_bbase] (js_flags TagCamel) 8 ["User"] [] with COk (_, v) => v | _ => [] end.
+Definition w_bn_view : view :=
+  Eval vm_compute in match run_getset [w_user; w_bbase] (js_flags TagCamel) 8 ["User"; "Base"] [] with COk (_, v) => v | _ => [] end.
+
+Theorem C11_refuted_K_json_accessor_by_name :
+  exists pkg v sd fields d nd jd,
+    json_of pkg w_bn_view0 (js_flags TagCamel) 8 sd = COk (fields, d, nd, jd) /\
+    c11_guard pkg (js_flags TagCamel) 8 sd = true /\
+    spec_accessors (js_flags TagCamel) sd false = [] /\ jd_setters jd = ["size"] /\
+    json_aligned pkg v 8 sd jd = false /\
+    unmarshal pkg v 8 sd jd [("size", VS "X")]
+      (VPtr (VStruct [("size", VS "own"); ("User", VStruct [("size", VS "inner")])])) =
+    Ok (VPtr (VStruct [("size", VS "own"); ("User", VStruct [("size", VS "X")])])).
+Proof.
+  exists [w_user; w_bbase], w_bn_view, w_bbase.
+  destruct (json_of [w_user; w_bbase] w_bn_view0 (js_flags TagCamel) 8 w_bbase) as [[[[fields d] nd] jd]| |] eqn:E;
+    try (vm_compute in E; discriminate).
+  exists fields, d, nd, jd. split; [reflexivity|]. vm_compute in E. inversion E; subst. vm_compute. repeat split; reflexivity.
+Qed.
+Print Assumptions C11_refuted_K_json_accessor_by_name.
